@@ -214,6 +214,15 @@ def run(chk):
                      ("renyi2-joint", lambda: en.renyi2_entropy(df, ["s", "t"], base=base), -math.log(pj) / lb if pj > 0 else inf_),
                      ("renyi2-conditional", lambda: en.renyi2_entropy(df, "s", by="g", base=base),
                       (-math.log(pcnd) / lb if pcnd > 0 else inf_) if not (isinstance(pcnd, float) and math.isnan(pcnd)) else float("nan"))]
+            # conditional entropy with group weights (one weight per group of >= 2 members): -log_base of the WEIGHTED conditional pc
+            vc_ = df["g"].value_counts()
+            nkept = int((vc_ >= 2).sum())
+            if nkept >= 2:
+                gw = [1.0 + (i % 3) for i in range(nkept)]
+                pcw = core.call_real(lambda: float(st.pc_conditional(df, "g", "s", group_weights=gw)))
+                if pcw[0] == "ok" and not math.isnan(pcw[1]):
+                    tests.append(("renyi2-conditional-weighted", lambda: en.renyi2_entropy(df, "s", by="g", base=base, group_weights=gw),
+                                  -math.log(pcw[1]) / lb if pcw[1] > 0 else inf_))
             if len(df) >= 4 and p > 0:
                 sd = st.stdpc(df["s"])
                 tests.append(("stdrenyi2", lambda: en.stdrenyi2_entropy(df, "s", base=base), sd / (p * lb)))
